@@ -441,6 +441,7 @@ type Contract struct {
 	Requires []Clause
 	Ensures  []Clause
 	Modifies []Clause
+	SetEnsures []Clause // postcondition of running the call once for every key in the deferred set 'keys' (commutative-defer rule)
 	Loops    map[int]*LoopSpec
 	Reveal   map[string]bool // opaque spec functions whose definitions this proof may use
 	ExitHints []Clause // proved (then assumed) at exit before the ensures clauses
@@ -602,6 +603,15 @@ func (db *SpecDB) ParseSpecText(lines []string, srcs []string) error {
 			} else {
 				cur.Ensures = append(cur.Ensures, c)
 			}
+		case "setensures":
+			if cur == nil {
+				return fmt.Errorf("%s: setensures outside a contract", l.src)
+			}
+			c, err := mk(rest, l.src, fmt.Sprintf("setens%d", len(cur.SetEnsures)+1))
+			if err != nil {
+				return err
+			}
+			cur.SetEnsures = append(cur.SetEnsures, c)
 		case "flag":
 			if cur == nil {
 				return fmt.Errorf("%s: flag outside a contract", l.src)
